@@ -49,10 +49,12 @@ Definition case_id c :=
 Definition world_of (l : list (xds_type * list res)) : world :=
   fun t => match find (fun p => ty_eqb t (fst p)) l with Some (_, rs) => rs | None => [] end.
 
-(* sessions: the ztunnel types are served by the real WorkloadGenerator, the others by the fake
-   generator of kind k *)
+(* sessions: ADDR/WORKLOAD are served by the real WorkloadGenerator, the workload Authorization type
+   by the real WorkloadRBACGenerator, the others by the fake generator of kind k *)
 Definition sess_gen (k : gkind) (W : world) : gen_fn :=
-  fun t => if requires_names_mod t then wds_gen W t else run_gen k W t.
+  fun t => if requires_names_mod t then wds_gen W t
+           else if ty_eqb t AUTHZ then rbac_gen W t
+           else run_gen k W t.
 
 Definition res_eqb (a b : res) : bool := (fst a =? fst b) && (snd a =? snd b).
 Definition sresp_eqb (a b : sresp) : bool :=
@@ -96,7 +98,8 @@ Definition has_sresp (t : xds_type) (l : list sresp) : option sresp :=
 (* C05 on one observed step; pre/post = observed server state before/after.  Only requests for a
    type the new stream does not know yet are judged here (the rest is C04's). *)
 Definition step_prop (k : gkind) (W : world) (pre post : watched) (x : xstep) : bool :=
-  let gen_ok := match k with GNil => false | _ => true end in
+  let fake_ok := match k with GNil => false | _ => true end in
+  let gen_ok := fake_ok || ty_eqb (match x with XS r _ _ _ => r_ty r | XD r _ _ _ _ _ => d_ty r end) AUTHZ in
   match x with
   | XS r _ resps _ =>
     let t := r_ty r in
@@ -119,6 +122,17 @@ Definition step_prop (k : gkind) (W : world) (pre post : watched) (x : xstep) : 
                 end
            else true)
         end
+    | Some w, None =>
+      (* a re-sent subscription on the current nonce while the watch is armed for warming (CDS was
+         (re)subscribed after it): answered with the current resources of ALL requested names,
+         whether or not the names changed *)
+      if always_respond w && negb (r_nonce r =? 0) && (r_nonce r =? nonce_sent w) &&
+         negb (should_unsubscribe r) && fake_ok
+      then match has_sresp t resps with
+           | None => false
+           | Some s => map_eqb (sr_res s) (gen_forced W t (norm (r_names r)))
+           end
+      else true
     | _, _ => true
     end
   | XD r vers _ _ resps _ =>
@@ -142,7 +156,7 @@ Definition step_prop (k : gkind) (W : world) (pre post : watched) (x : xstep) : 
                         (rnames vers)
            else true) &&
           (* CDS on a stream that already watches EDS: an EDS response follows *)
-          (if ty_eqb t CDS && gen_ok
+          (if ty_eqb t CDS && fake_ok
            then match pre EDS with
                 | Some _ => match first_of EDS resps with Some _ => true | None => false end
                 | None => true
